@@ -81,6 +81,17 @@ def fixed_specs():
                   K('S', 'B2'): const(('n', 4.0)), K('S', 'C2'): const(('n', 5.0)), K('S', 'D2'): const(('n', 6.0)),
                   K('S', 'A1'): fn('SUM', rng('S', 'G1:H3')), K('S', 'J5'): fn('COUNT', rng('S', 'G1:H3')), K('S', 'J6'): fn('ISERROR', cell('S', 'H3'))},
         'arrays': {K('S', 'G1:H3'): op('+', rng('S', 'B1:D2'), num(0))}, 'names': {}, 'sheets': [[B, 'S']]}
+    # a sheet wider than 26 columns: array-formula blocks left of, and across, the Z/AA border; constants on the blocks' rows in two-letter columns
+    out['wide-array'] = {
+        'cells': {K('S', 'A1'): const(('n', 2.0)), K('S', 'AA3'): const(('n', 30.0)), K('S', 'AB2'): const(('n', 40.0)), K('S', 'AC8'): const(('n', 50.0)),
+                  K('S', 'D1'): op('+', cell('S', 'AA3'), cell('S', 'AB2')), K('S', 'D2'): fn('SUM', rng('S', 'A2:B4')),
+                  K('S', 'D3'): op('+', cell('S', 'Y8'), cell('S', 'AA8')), K('S', 'D4'): op('*', cell('S', 'Z8'), cell('S', 'AC8')), K('S', 'D5'): op('+', cell('S', 'B3'), num(1))},
+        'arrays': {K('S', 'A2:B4'): op('*', cell('S', 'A1'), num(3)), K('S', 'X8:AA8'): op('*', cell('S', 'A1'), num(7))}, 'names': {}, 'sheets': [[B, 'S']]}
+    # an array formula of a workbook that is reached lazily (through references only), read through cells and ranges that leave out its anchor
+    out['lazy-array'] = {
+        'cells': {K('S', 'A1'): op('+', cell('U', 'B2', C), num(1)), K('S', 'A2'): fn('SUM', rng('U', 'B2:B3', C)), K('S', 'A3'): op('*', cell('U', 'B3', C), num(10)),
+                  K('U', 'A1', C): const(('n', 1.0)), K('U', 'A2', C): const(('n', 2.0)), K('U', 'A3', C): const(('n', 3.0))},
+        'arrays': {K('U', 'B1:B3', C): op('*', rng('U', 'A1:A3', C), num(2))}, 'names': {}, 'sheets': [[B, 'S'], [C, 'U']], 'home': B}
     # numeric external links: the link table of the home book lists books that cannot be loaded before and after the real one
     for tag, table in (('numeric-links', ['legacy.xls', C, 'gone.xlsx']), ('numeric-links-first', [C, 'legacy.xls']), ('numeric-links-last', ['gone.xlsx', 'old.xlsb', C])):
         out[tag] = {
